@@ -23,7 +23,9 @@ META = {
                   'real code on all generated pairs), fmt/strconv facts supplied by the probe from the real runtime (%v of floats injective '
                   'except NaN: checked on every float that occurs; ParseInt/ParseFloat results), reflect.DeepEqual modelled on trees with '
                   'identity labels and canonical maps. Outside the statement (agreement with the model only): cross-typed patterns, NaN, '
-                  '+0 vs -0. Not modelled: variadic mode (C04/F6), cyclic values, the unsafe cast of value.go:56. '
+                  '+0 vs -0 (known finding C18-signed-zero). reflect.DeepEqual and the fact that Eval writes nothing are transcribed, not derivable: their evidence is the '
+                  'differential run (arguments delivered through reflect.MakeFunc, re-evaluation, in-place mutation between Evals). A []interface{} '
+                  'alternative of In is a tuple in the code (known finding), unmodelled. Not modelled: variadic mode (C04/F6), cyclic values, the unsafe cast of value.go:56. '
                   'Excluded case (known finding C18-closure-code-identity, counter-example theorem in Findings/C18Closure.lean): two closures of one '
                   'function literal with different captured state compare equal; equals_spec_partial carries it as a decidable hypothesis, the '
                   'full statement is kept as C18.EqualsSpecFull. The model transcribes the code with fixes F10 and F18A applied.',
@@ -84,21 +86,29 @@ T_SS = ('st', 'SS', [T_S1, T_ptr(T_S1), T_flt('float32')])
 T_ISTR = ('if', 'IStr', [T_int('Level'), T_int('ULevel'), T_flt('Temp'), ('st', 'SP', [T_int('int'), T_STR])])
 T_ERR = ('if', 'error', [T_int('Errno')])
 T_E0 = ('st', 'E0', [])
+T_U8 = ('int', 'uint8', 8, False)
+T_BYTES = ('sl', '[]uint8', T_U8)
+T_NBYTES = ('sl', 'NBytes', T_U8)
+T_ARR4 = ('ar', '[4]uint8', 4, T_U8)
+T_NARR4 = ('ar', 'NArr4', 4, T_U8)
+T_SU = ('st', 'SU', [('int', 'int', 64, True), ('str', 'string')])
 T_SP = ('st', 'SP', [T_int('int'), T_STR])
 T_S3 = ('st', 'S3', [T_STR, T_STR])
 STRUCTS = [T_S1, T_SF, T_SB, T_SN, T_SS]
 COMPOSITES = STRUCTS + [T_ar(2, T_int('int8')), T_ar(3, T_STR), T_ar(2, T_S1), T_ar(2, T_flt('float64')), T_ar(0, T_int('int')),
                         T_sl(T_int('int')), T_sl(T_STR), T_sl(T_S1), T_sl(T_ANY), T_sl(T_flt('float64')), T_sl(T_sl(T_int('uint8'))), T_sl(T_F0),
                         T_mp(T_STR, T_int('int')), T_mp(T_int('int'), T_STR), T_mp(T_BOOL, T_S1), T_mp(T_STR, T_ANY), T_mp(T_int('uint8'), T_sl(T_int('int'))),
-                        T_mp(T_STR, T_flt('float64')), T_sl(T_E0), T_sl(T_ar(0, T_int('int'))), T_E0]
+                        T_mp(T_STR, T_flt('float64')), T_sl(T_E0), T_sl(T_ar(0, T_int('int'))), T_E0,
+                        T_BYTES, T_NBYTES, T_ARR4, T_NARR4, ('ar', '[0]uint8', 0, T_U8), T_SU, T_ar(2, T_SU)]
 FUNCS = [T_F0, T_F1, T_FU]
 POINTERS = ([T_ptr(t) for t in [T_int('int'), T_int('int8'), T_int('uint64'), T_int('Level'), T_flt('float64'), T_flt('float32'), T_STR, T_BOOL,
                                 T_S1, T_SN, T_SF, T_F0, T_ANY, T_sl(T_int('int')), T_mp(T_STR, T_int('int')), T_ar(2, T_int('int8'))]]
-            + [T_ptr(T_ptr(T_int('int'))), T_ptr(T_ptr(T_S1)), T_ptr(T_ptr(T_F0)), T_ptr(T_ptr(T_flt('float64')))])
+            + [T_ptr(T_BYTES), T_ptr(T_ARR4), T_ptr(T_NBYTES), T_ptr(T_SU), T_ptr(T_ptr(T_int('int'))), T_ptr(T_ptr(T_S1)), T_ptr(T_ptr(T_F0)), T_ptr(T_ptr(T_flt('float64')))])
 IFACES = [T_ANY, T_ISTR, T_ERR]
 PARAM_TYPES = SCALARS + COMPOSITES + FUNCS + POINTERS + IFACES
 ANY_DYN = PLAIN_DYN + [T_S1, T_SB, T_ptr(T_S1), T_ptr(T_int('int')), T_ptr(T_flt('float64')), T_sl(T_int('int')), T_mp(T_STR, T_int('int')), T_F0, T_FU,
-                       T_ar(2, T_int('int8')), T_int('int32'), T_int('uint'), T_NSTR, T_NBOOL, T_flt('Temp'), T_sl(T_ANY), T_ptr(T_ptr(T_int('int')))]
+                       T_ar(2, T_int('int8')), T_int('int32'), T_int('uint'), T_NSTR, T_NBOOL, T_flt('Temp'), T_sl(T_ANY), T_ptr(T_ptr(T_int('int'))),
+                       T_BYTES, T_ARR4, T_NARR4, T_SU, T_ptr(T_BYTES)]
 
 F64_BITS = [0x0, 0x8000000000000000, 0x1, 0x8000000000000001, 0x000fffffffffffff, 0x0010000000000000, 0x3ff0000000000000, 0xbff0000000000000,
             0x3fb999999999999a, 0x3fe0000000000000, 0x4000000000000000, 0x4340000000000000, 0x4340000000000001, 0x43e0000000000000, 0x412e848000000000,
@@ -455,7 +465,7 @@ def gen_ops(tier, rng):
         else:
             wrap, pt = (lambda t: t), T_ANY
         ins = [[wrap(c)] for c in cand]
-        if rng.chance(1, 2) or (et is T_ANY and m != 1):   # a []interface{} item of In IS a tuple (expr.go:71), never a plain value
+        if rng.chance(1, 2):
             add(ev_line([pt], ['eq'] + arg_tokens(wrap(window(lo, hi))), ins), 'wt')
         else:
             k = 1 + rng.below(2)
@@ -463,7 +473,8 @@ def gen_ops(tier, rng):
             for _ in range(k):
                 l2, h2 = rng.choice(wins)
                 expr += ['c', 'v'] + arg_tokens(wrap(window(l2, h2)))
-            add(ev_line([pt], expr, ins), 'wt')
+            # a []interface{} alternative of In IS a tuple (expr.go:71), never a value: known finding, judged by the union oracle only
+            add(ev_line([pt], expr, ins), 'kt' if (et is T_ANY and m != 1) else 'wt')
     for et in (T_E0, T_ar(0, T_int('int'))):                # zero-size elements: every slice has the same data pointer
         st = T_sl(et)
         mk = lambda k: ['sl', name(st), '0', str(k)] + [tok for _ in range(k) for tok in g.value(et)]
@@ -633,6 +644,90 @@ def gen_ops(tier, rng):
                     expr += ['v'] + arg_tokens(a)
             add(evv_line([T_STR], T_sl(T_STR), expr, [([tup[0]], list(tup[1:])) for tup in alts]), 'wt')
 
+    # ---- lane 10: the caller REUSES one argument object and changes its contents between two calls: the probe mutates the pointee /
+    # map / slice in place and evaluates the very same reflect.Value again (each answer must follow the current contents)
+    n10 = 25 * scale
+    mu_types = [T_ptr(T_S1), T_ptr(T_int('int')), T_ptr(T_flt('float64')), T_mp(T_STR, T_int('int')), T_ptr(T_SN), T_ptr(T_ptr(T_int('int'))),
+                T_ptr(T_sl(T_int('int'))), T_ptr(T_STR), T_ptr(T_SU), T_ptr(T_BYTES)]
+
+    def nonnil(t):
+        if t[0] == 'sl':
+            return ['sl', name(t), '0', '2'] + g.value(t[2], 2) + g.value(t[2], 2)
+        while True:
+            v = g.value(t, 0, allow_nil=False)
+            if v[2] != 'nil':
+                return v
+
+    for _ in range(n10):
+        t = rng.choice(mu_types + [T_sl(T_int('int')), T_BYTES])
+        v0, v1, v2 = nonnil(t), nonnil(t), nonnil(t)
+        seq = [v0, v1, v0, v0, v2, v1, v0][:3 + rng.below(5)]
+        if rng.chance(1, 2):
+            seq = [v1] + seq
+        pt = T_ANY if rng.chance(1, 4) else t
+        if rng.chance(2, 3):
+            add(ev_line([pt], ['eq'] + arg_tokens(v0), [[a] for a in seq]).replace('c18.ev', 'c18.mu', 1), 'wt')
+        else:
+            add(ev_line([pt], ['in', '2', 'c', 'v'] + arg_tokens(v0) + ['c', 'v'] + arg_tokens(v2), [[a] for a in seq]).replace('c18.ev', 'c18.mu', 1), 'wt')
+
+    # ---- lane 11: In with MANY alternatives (8 and more): every alternative, near misses between alternatives, unrelated values
+    many_types = [T_flt('float64'), T_flt('float32'), T_int('int'), T_int('uint8'), T_int('Level'), T_STR, T_ptr(T_S1), T_S1, T_ANY, T_ptr(T_int('int')),
+                  T_sl(T_int('int')), T_flt('Temp'), T_BYTES, T_ARR4]
+    sizes = [8, 9, 12] if tier == 'quick' else [8, 9, 10, 12, 16, 17, 33, 64]
+    for t in many_types:
+        for k in sizes:
+            if t[0] == 'flt':           # k+0.5 alternatives; inputs in between (same integer part)
+                pack = (lambda x: struct.unpack('<Q', struct.pack('<d', x))[0]) if t[2] == 64 else (lambda x: struct.unpack('<I', struct.pack('<f', x))[0])
+                alts = [g.flt_term(t, pack(i + 0.5)) for i in range(k)]
+                ins = [alts[0], alts[k - 1], alts[k // 2]] + [g.flt_term(t, pack(i + 0.25)) for i in (0, 1, k // 2, k - 1)] + [g.flt_term(t, pack(1.0)), g.flt_term(t, pack(k + 5.0))]
+            else:
+                alts, seen_a = [], set()
+                for _ in range(k * 20):
+                    v = rand_of(t)
+                    if ' '.join(v) not in seen_a:
+                        seen_a.add(' '.join(v))
+                        alts.append(v)
+                    if len(alts) == k:
+                        break
+                dt = t if t[0] != 'if' else None
+                ins = [alts[0], alts[-1], alts[len(alts) // 2]] + [rand_of(t) for _ in range(3)]
+                if dt is not None:
+                    ins += [g.near(dt, alts[0], 1), g.near(dt, alts[-1], 1)]
+            expr = ['in', str(len(alts))]
+            for a in alts:
+                expr += ['c', 'v'] + arg_tokens(a)
+            add(ev_line([t], expr, [[a] for a in ins]), 'wt')
+            expr = ['in', str(len(alts))]            # the same as the first component of two-parameter tuples
+            for a in alts:
+                expr += ['t', '2', 'v'] + arg_tokens(a) + ['e', 'any']
+            add(ev_line([t, T_STR], expr, [[a, g.str_term(T_STR, 'x')] for a in ins[:4]]), 'wt')
+
+    # ---- lane 12: a []interface{} alternative of In (read as a tuple by the code: known finding C18-in-item-slice-of-interface-is-tuple)
+    for pt in (T_ANY, T_sl(T_ANY)):
+        for n in (0, 1, 2):
+            v = ['sl', '[]any', '0', str(n)] + [tok for _ in range(n) for tok in (['if', 'any'] + g.value(rng.choice(PLAIN_DYN), 2))]
+            add(ev_line([pt], ['in', '1', 'c', 'v'] + arg_tokens(v), [[v], [v]]), 'kt')
+            add(ev_line([pt], ['eq'] + arg_tokens(v), [[v]]), 'wt')
+
+    # ---- lane 13: nil against empty, systematically: every slice/map type, bare, behind a pointer and inside interface{}
+    for t in [T_sl(T_int('int')), T_BYTES, T_NBYTES, T_sl(T_STR), T_sl(T_ANY), T_sl(T_E0), T_mp(T_STR, T_int('int')), T_mp(T_int('int'), T_STR)]:
+        nil_v = [t[0], name(t), 'nil']
+        empty = ['sl', name(t), '0', '0'] if t[0] == 'sl' else ['mp', name(t), '0', '0']
+        for pt, wrap in ((t, lambda v: v), (T_ptr(t), lambda v: ['p', '*' + name(t), '0'] + v), (T_ANY, lambda v: v)):
+            for x in (nil_v, empty):
+                add(ev_line([pt], ['eq'] + arg_tokens(wrap(x)), [[wrap(nil_v)], [wrap(empty)]]), 'wt')
+                # variadic mode with NON-tuple items: `In(1, 2)` on f(xs ...int) is expanded with reflect.Value.Len and panics at Resolve
+    # (ill-formed for the variadic position; observed and compared with the model, not demanded)
+    add(evv_line([], T_sl(T_int('int')), ['in', '2', 'c', 'v'] + arg_tokens(g.int_term(T_int('int'), 1)) + ['c', 'v'] + arg_tokens(g.int_term(T_int('int'), 2)),
+                 [([], [g.int_term(T_int('int'), 1)])]), 'x')
+    add(evv_line([], T_sl(T_STR), ['in', '1', 'c', 'e', 'any'], [([], [g.str_term(T_STR, 'a')])]), 'x')
+    add(evv_line([T_STR], T_sl(T_int('int')), ['in', '2', 't', '2', 'v'] + arg_tokens(g.str_term(T_STR, 'a')) + ['v'] + arg_tokens(g.int_term(T_int('int'), 1))
+                 + ['c', 'v'] + arg_tokens(g.int_term(T_int('int'), 2)), [([g.str_term(T_STR, 'a')], [g.int_term(T_int('int'), 1)])]), 'x')
+    # executed only (the model answers `unmodelled`): the unsafe cast of a same-sized struct (value.go:51-57), nil for an array parameter
+    add(ev_line([T_S1], ['eq'] + arg_tokens(['st', 'S2', '2'] + g.int_term(T_int('int'), 1) + g.str_term(T_STR, 'a')),
+                [[['st', 'S1', '2'] + g.int_term(T_int('int'), 1) + g.str_term(T_STR, 'a')]]), 'x')
+    add(ev_line([T_ar(2, T_int('int8'))], ['eq', 'nil'], [[['ar', '[2]int8', '2'] + g.int_term(T_int('int8'), 0) + g.int_term(T_int('int8'), 0)]]), 'x')
+
     # ---- lane 5: cross-typed and malformed (agreement with the model only; panics/errors are observations)
     n5 = 120 * scale
     same_size = [T_int('int'), T_int('int64'), T_int('uint64'), T_int('uint'), T_int('uintptr'), T_flt('float64'), T_int('NInt'), T_flt('NF64'), T_int('Level'), T_flt('Temp')]
@@ -675,6 +770,10 @@ def gen_ops(tier, rng):
 
 # ------------------------------------------------------------------------------------------------ running
 
+# goom's own environment knobs must not leak into the probe
+SCRUB = {'GOOM_DEBUG': '', 'GODEBUG': '', 'GOGC': '', 'GOTRACEBACK': ''}
+FLOORS = {'c18.ev': 1500, 'c18.evv': 20, 'c18.sh': 100, 'c18.mu': 15}   # a lane that silently generated nothing is a machinery error
+
 PROBE = ('c18-arg', 'arg', {'zz_verif_c18_test.go': 'c18/arg_probe_test.go'})
 _bin = {}
 
@@ -695,11 +794,13 @@ def annotate(lines, tag):
     raw = os.path.join(C.BUILD, f'{tag}.raw')
     open(raw, 'w').write('\n'.join(lines) + '\n')
     outp = os.path.join(C.BUILD, f'{tag}.annot')
-    rc, log = C.run_probe(build_probe(), 'TestVerifC18', raw, outp, env={'VERIF_MODE': 'annotate'})
+    rc, log = C.run_probe(build_probe(), 'TestVerifC18', raw, outp, env=dict(SCRUB, VERIF_MODE='annotate'), timeout=3600)
+    if rc != 0:
+        rc, log = C.run_probe(build_probe(), 'TestVerifC18', raw, outp, env=dict(SCRUB, VERIF_MODE='annotate'), timeout=3600)
     if rc != 0:
         raise C.Infra(f'annotate pass failed rc={rc}:\n{log[-2000:]}')
     res = C.read_indexed(outp, len(lines))
-    bad = [(lines[i], r) for i, r in enumerate(res) if r is None or not r.startswith(('c18.ev ', 'c18.evv ', 'c18.sh '))]
+    bad = [(lines[i], r) for i, r in enumerate(res) if r is None or not r.startswith(('c18.ev ', 'c18.evv ', 'c18.sh ', 'c18.mu '))]
     if bad:
         raise C.Infra(f'generator produced {len(bad)} lines the probe cannot build, e.g. {bad[0]}')
     return res
@@ -709,9 +810,11 @@ def execute(ops, tag='c18'):
     ops_path = os.path.join(C.BUILD, f'{tag}.ops')
     open(ops_path, 'w').write('\n'.join(ops) + '\n')
     outp = os.path.join(C.BUILD, f'{tag}.impl')
-    rc, log = C.run_probe(build_probe(), 'TestVerifC18', ops_path, outp)
+    rc, log = C.run_probe(build_probe(), 'TestVerifC18', ops_path, outp, env=SCRUB, timeout=3600)
+    if rc != 0:      # a loaded machine can kill or time out a run: once more before saying anything
+        rc, log = C.run_probe(build_probe(), 'TestVerifC18', ops_path, outp, env=SCRUB, timeout=3600)
     if rc != 0:
-        raise C.Infra(f'probe failed rc={rc}:\n{log[-2000:]}')
+        raise C.Infra(f'probe failed twice rc={rc}:\n{log[-2000:]}')
     impl = C.read_indexed(outp, len(ops))
     exe, err = C.build_driver()
     if exe is None:
@@ -759,6 +862,14 @@ def oracle(line, lane, obs):
                 bad.append((f'Any rejected an argument: step {k} of a script on shared expression objects answered {a} (an earlier Resolve/Eval changed a later answer)', None))
         return bad
     answers = d.get('E', '').split(',') if d.get('E') else []
+    if lane == 'kt':       # In with a []interface{} alternative: whatever goes wrong here is the recorded finding
+        tk = 'in-item-slice-of-interface-is-tuple'
+        if d.get('R') != 'ok':
+            return [(f'In with a []interface{{}} alternative does not resolve as a value: {d.get("R")}', tk)]
+        for a, u in zip(answers, (d.get('U') or '').split(',')):
+            if u != '-' and a != u:
+                return [(f'In with a []interface{{}} alternative answered {a}, Equals of that alternative answers {u}', tk)]
+        return bad
     if lane == 'wt':
         if d.get('R') != 'ok':
             bad.append((f'Resolve on well-typed input: {d.get("R")}', 'resolve-nil-func' if 'reflect.value.type' in d.get('R', '') else None))
@@ -777,7 +888,11 @@ def oracle(line, lane, obs):
             if spec == '-':
                 continue
             want, flags = spec[0], spec[1:]
-            if any(f in flags for f in 'TNZ'):
+            if 'Z' in flags and 'T' not in flags and 'N' not in flags:
+                if a != want:                # +0 against -0: Go says equal, the %v text differs (recorded finding)
+                    bad.append((f'Equals answered {a} for +0 against -0 where Go == says {want}', 'signed-zero'))
+                continue
+            if any(f in flags for f in 'TN'):
                 continue                     # outside "same-typed ordinary": agreement with the model only
             if 'C' in flags:
                 if a != want:
@@ -821,7 +936,7 @@ def load_corpus():
     p = os.path.join(C.HARNESS, 'c18', 'corpus.ops')
     if not os.path.exists(p):
         return []
-    return [(l.rstrip('\n'), 'wt') for l in open(p) if l.startswith(('c18.ev ', 'c18.evv ', 'c18.sh '))]
+    return [(l.rstrip('\n'), 'wt') for l in open(p) if l.startswith(('c18.ev ', 'c18.evv ', 'c18.sh ', 'c18.mu '))]
 
 
 def run(tier):
@@ -836,6 +951,10 @@ def run(tier):
             seen.add(l)
             uniq.append((l, lane))
     lanes = [lane for _, lane in uniq]
+    for pref, floor in FLOORS.items():
+        have = sum(1 for l, _ in uniq if l.startswith(pref + ' '))
+        if have < floor:
+            raise C.Infra(f'generator produced only {have} `{pref}` lines (floor {floor})')
     ops = annotate([l for l, _ in uniq], 'c18')
     impl, model, derr = execute(ops)
 
